@@ -60,8 +60,9 @@ def make_refseq(seqid):
     return "".join(s)
 
 
-WorldSpec = collections.namedtuple("WorldSpec", "strands pseudo indelmap seqid table")
-# strands: (hg19 strand, hg38 strand) each "+" or "-"; table: name of an allele table or a tuple-encoded table
+WorldSpec = collections.namedtuple("WorldSpec", "strands pseudo indelmap seqid table layout", defaults=("std",))
+# strands: (hg19 strand, hg38 strand) each "+" or "-"; table: name of an allele table or a tuple-encoded table;
+# layout: "std" = gene before its pseudogene on the genome, "pfirst" = the two loci swapped (pseudogene upstream)
 
 
 class World:
@@ -74,9 +75,14 @@ class World:
         self.pseq = "".join(p)
         self.strand = {"hg19": spec.strands[0], "hg38": spec.strands[1]}
         self.alleles = allele_table(spec.table, self.seq, spec.pseudo)
-        self.tandems = [["13", "1"]] if spec.table in ("rich", "richd") and spec.pseudo else []
+        self.tandems = [["13", "1"]] if spec.table in ("rich", "richd", "edge") and spec.pseudo else []
 
     # -------------------------------------------------------------- coordinates
+    def offs(self, build):
+        """1-based starts (gene, pseudogene, neutral region) on this build."""
+        g, p, n = OFFS[build]
+        return (p, g, n) if getattr(self.spec, "layout", "std") == "pfirst" else (g, p, n)
+
     def glen(self):
         return L - (REFSEQ_ONLY[1] - REFSEQ_ONLY[0]) + len(GENOME_ONLY) if self.spec.indelmap else L
 
@@ -96,7 +102,7 @@ class World:
         c = self.col(r)
         if c is None:
             return None
-        base0 = OFFS[build][copy] - 1
+        base0 = self.offs(build)[copy] - 1
         return base0 + c if self.strand[build] == "+" else base0 + (self.glen() - 1 - c)
 
     def plus_copy(self, seq):
@@ -155,7 +161,7 @@ class World:
             },
             "reference": {
                 "name": "NG_VERIF",
-                "mappings": {b: ["7", OFFS[b][0], OFFS[b][0] + self.glen(), self.strand[b], self.cigar(b)]
+                "mappings": {b: ["7", self.offs(b)[0], self.offs(b)[0] + self.glen(), self.strand[b], self.cigar(b)]
                              for b in ("hg19", "hg38")},
                 "exons": [[101, 201], [301, 401], [501, 551]],
                 "seq": self.seq,
@@ -187,7 +193,7 @@ class World:
             for i, c in enumerate(s):
                 G[start1 - 1 + i] = c
 
-        goff, poff, noff = OFFS[build]
+        goff, poff, noff = self.offs(build)
         gs, ps = self.plus_copy(self.seq), self.plus_copy(self.pseq)
         if self.strand[build] == "-":
             gs, ps = rev_comp(gs), rev_comp(ps)
@@ -230,7 +236,7 @@ def allele_table(table, seq, pseudo):
             ("GEN*2.002", {"mutations": [snv(s, 150, None, "rs150", "functional"), snv(s, 331, None, "rs331")]}),
             ("GEN*3.001", {"mutations": [snv(s, 170, None, "rs170", "functional"), snv(s, 231, None, "rs231")]}),
         ])
-    assert table in ("rich", "richd"), table
+    assert table in ("rich", "richd", "edge"), table
     mnv = f"{s[309:311]}>{COMP[s[309]] + COMP[s[310]]}"
     d = collections.OrderedDict([
         ("GEN*1.001", {"mutations": []}),
@@ -256,10 +262,16 @@ def allele_table(table, seq, pseudo):
     # variants on the very first and the very last base of the RefSeq (boundary of the mapped part)
     d["GEN*1.003"] = {"mutations": [snv(s, 1, None, "rs1")]}
     d["GEN*18.001"] = {"mutations": [snv(s, 600, None, "rs600", "functional")]}
-    if table == "richd":      # plus a deletion-insertion (as CYP2A6*27 has)
+    if table in ("richd", "edge"):      # plus a deletion-insertion (as CYP2A6*27 has)
         d["GEN*16.001"] = {"mutations": [[390, f"del{s[389:391]}ins{COMP[s[389]]}", "rs390", "frameshift"]]}
         # the first base change of the MNV of *5 also exists as a substitution of its own (as CYP2D6 rs1058164 does)
         d["GEN*17.001"] = {"mutations": [[310, f"{s[309]}>{COMP[s[309]]}", "rs310a", "functional"]]}
+    if table == "edge":       # indels touching the first / last base of the mapped part (either strand's first genome base)
+        d["GEN*19.001"] = {"mutations": [[1, "insTT", "rs1i", "frameshift"]]}
+        d["GEN*20.001"] = {"mutations": [[2, f"del{s[1:3]}", "rs2d", "frameshift"]]}
+        d["GEN*21.001"] = {"mutations": [[599, "insGG", "rs599i", "frameshift"]]}
+        d["GEN*22.001"] = {"mutations": [[598, f"del{s[597:599]}", "rs598d", "frameshift"]]}
+        d["GEN*23.001"] = {"mutations": [[1, f"{s[0:2]}>{COMP[s[0]] + COMP[s[1]]}", "rs1m", "functional"]]}
     return d
 
 
